@@ -16,3 +16,10 @@ package utils
 //@   ensures same_identity: result.Scheme == i.Scheme && result.Host == i.Host && result.Path == i.Path
 //@   ensures same_rest: result.RawPath == i.RawPath && result.RawQuery == i.RawQuery && result.Opaque == i.Opaque && result.Fragment == i.Fragment && result.ForceQuery == i.ForceQuery
 //@   ensures user_copied: (i.User == nil ==> result.User == nil) && (i.User != nil ==> result.User != nil && fresh(result.User))
+
+// The wrapped handler is arbitrary code: it may change anything it can reach and may panic.
+//@ iface net/http.Handler.ServeHTTP
+//@   params self w req
+//@   modifies everything
+//@   maypanic
+//@   ensures keeps_url_object: req != nil && old(req.URL) != nil ==> req.URL != nil
